@@ -25,7 +25,10 @@ MANIFEST = dict(
          "(setters_any_order, setters_any_order_layout, setters_any_order_parsed_layout, getter_last_write_layout, "
          "setter_frame_partial); when the last present word announces table fields the chain and the first word's "
          "fields are still right and read back, only the bytes behind them are re-padded (write_layout_live, "
-         "setters_any_order_live, setter_frame_live); the full frame statement SetterFrameAll is refuted on a "
+         "setters_any_order_live, setter_frame_live), and when those bytes are the well-aligned fields of the last word "
+         "(decodeLayout2: e.g. two radiotap namespaces as the standard lays them out) they are re-aligned with their "
+         "values and every getter returns the first word's value, else the last word's (write_two_words, "
+         "getter_two_words, setters_two_words); the full frame statement SetterFrameAll is refuted on a "
          "vendor-namespace witness (setter_frame_fails, KF-C11-6, replayed on the real code on every run). "
          "(3) Serialization: length_covers for every object; serialize_reparse_any: for every payload the parser accepts "
          "the re-parsed object has the same version, pad and payload and the inner frame gets exactly its bytes. "
@@ -292,6 +295,30 @@ def layout_case(rng, maxlen=12):
     return ops
 
 
+def two_ns_case(rng, maxlen=10):
+    """a parsed header with two radiotap namespaces as the standard lays them out (bit 31 + bit 29 in the first present
+    word, the second word's fields behind the first's, optional trailing bytes), then setters / add_option / serialize"""
+    m0 = rand_fields(rng, rng.choice([0.15, 0.3, 0.5])) or {3: bytes([0x6c, 0x09, 0xa0, 0x00])}
+    mk = rand_fields(rng, rng.choice([0.1, 0.25, 0.4]))
+    w0 = sum(1 << b for b in m0) | (1 << 31) | (1 << 29)
+    w1 = sum(1 << b for b in mk)
+    pl = w0.to_bytes(4, "little") + w1.to_bytes(4, "little")
+    pl += enc_fields(m0, len(pl))
+    pl += enc_fields(mk, len(pl))
+    pl += bytes(rng.randrange(256) for _ in range(rng.choice([0, 0, 0, 2, 5])))
+    ops = ["parse " + hexs(header(pl, version=rng.choice([0, 0, 3]), pad=rng.choice([0, 0, 9])))]
+    for _ in range(rng.choice([1, 2, 3, 5, rng.randint(1, maxlen)])):
+        r = rng.random()
+        if r < 0.75:
+            ops.append(set_op(rng, rng.choice(NAMES)))
+        elif r < 0.85:
+            b = rng.randrange(20)
+            ops.append(f"add {b} {hexs(rand_value(rng, b))}")
+        else:
+            ops.append("ser " + rng.choice(INNER + ["-"]))
+    return ops
+
+
 def corpus_cases():
     """minimised replays of the findings of this property (known_findings.d/C11.jsonl); run first on every run — the
     known finding KF-C11-6 is reported because it is observed, the fixed ones must stay quiet"""
@@ -372,9 +399,13 @@ def run(chk):
     lc = [layout_case(rng) for _ in range(nlay)]
     go_all(lc[:300], 300)
     go_all(lc[300:], 3000)
+    ntwo = 1200 if quick else 25000
+    tc = [two_ns_case(rng) for _ in range(ntwo)]
+    go_all(tc[:300], 300)
+    go_all(tc[300:], 3000)
     # how often the oracle commits itself: verdicts over a sample of each generator's cases
     verdicts = {}
-    for name, sample in (("random", rc[:150]), ("mutated", mc[:150]), ("parser", pc[:300]), ("layout", lc[:200])):
+    for name, sample in (("random", rc[:150]), ("mutated", mc[:150]), ("parser", pc[:300]), ("layout", lc[:200]), ("two_ns", tc[:150])):
         ops = [l for c in sample for l in c]
         _, _, spec, _ = corr.evaluate(AREA, exe, ops, CASE_START)
         cnt = {}
@@ -415,9 +446,10 @@ def run(chk):
         "parsed headers that are not well aligned (non-zero padding bytes, fields that do not fit, misaligned data): "
         "the safety theorems (no fault, termination) and the any-payload serialization theorem cover them; what the "
         "getters return after setters on them is compared with the implementation only",
-        "live frames (last present word with table bits): the bytes behind the first word's fields after an insertion "
-        "are only shown to exist (re-padded by update_paddings), their content is compared with the implementation and, "
-        "for a radiotap-namespace second word, checked by the oracle (same field values at re-aligned offsets)",
+        "live frames (last present word with table bits) whose foreign bytes are not the well-aligned fields of the last "
+        "word, or whose first present word has no table field (libtins' parser then never enters the last word): the "
+        "bytes behind the first word's fields after an insertion are only shown to exist (re-padded by update_paddings), "
+        "their content is compared with the implementation",
         "current_namespace() / namespace index: modelled (Checked.lean), compared and checked by the oracle against the "
         "standard; no theorem beyond safety",
         "serialize(): the FCS value is compared with an independent CRC-32 in the harness (C05 owns the CRC proof); "
